@@ -3,7 +3,7 @@ from lib import core, rlngen, treegen
 from lib.gen import P, le, rand_fr
 from lib.rlngen import hx
 
-THEOREMS = {"ZkProofs.C11": ["Zk.C11_every_function_forwards_its_own_arguments", "Zk.C11_exported_functions",
+THEOREMS = {"ZkProofs.C11": ["Zk.C11_every_function_forwards_its_own_arguments", "Zk.C11_exported_functions", "Zk.C11_kinds_known",
                              "Zk.C11_seq_batch_starts_at_leaf_count", "Zk.C11_flag_iff_ok", "Zk.C11_verdict_iff_ok", "Zk.C11_call_flag_iff_ok"]}
 
 
